@@ -183,7 +183,12 @@ func (rs *bodyStream) Read(p []byte) (int, error) {
 	var err error
 	// read from the pre-read buffer
 	if int(rs.prefetchedBytes.Size()) > rs.offset {
-		n, err = rs.prefetchedBytes.Read(p)
+		// the prefetched part may hold more than the declared length: never hand out more
+		pp := p
+		if rs.contentLength >= 0 && len(pp) > rs.contentLength-rs.offset {
+			pp = pp[:rs.contentLength-rs.offset]
+		}
+		n, err = rs.prefetchedBytes.Read(pp)
 		rs.offset += n
 		if rs.offset == rs.contentLength {
 			return n, io.EOF
